@@ -505,3 +505,16 @@ func PropertyAnchors(id string) (map[string]bool, error) {
 	}
 	return out, nil
 }
+
+// Only returns a copy of r restricted to findings of the given rule (counts
+// and obligations are kept: they describe what was analysed).
+func (r *Result) Only(rule string) *Result {
+	o := *r
+	o.Findings = nil
+	for _, f := range r.Findings {
+		if f.Rule == rule {
+			o.Findings = append(o.Findings, f)
+		}
+	}
+	return &o
+}
